@@ -244,7 +244,7 @@ def r1_area(ctx):
         def oracle(v, ev):
             return arm if ev.sh.loop_stack else None       # the one data-dependent selector inside the loops: both arms are evaluated
 
-        R = Run(ctx, fn, PSD, facts=facts, call=_spec_hook, rewrite=rewrite, oracle=oracle)
+        R = Run(ctx, fn, PSD, facts=facts, call=_spec_hook, rewrite=rewrite, oracle=oracle, ranks={"Freq": 1, "PSD": 2})
         return R, loads
 
     res = {}
